@@ -10,6 +10,7 @@
 //   auth_revoke <uid> <evt>                AuthManager::revoke_permission (drops)  -> OK | E nf
 //   auth_revkey <uid>                      AuthManager::revoke_key                 -> OK | E nf
 //   auth_can <uid> <evt>                   can_read / can_write / is_admin         -> r=_ w=_ a=_
+//   auth_active <uid>                      AuthManager::list_users -> active flag    -> A 1 | A 0 | A -
 //   auth_perms <uid>                       AuthManager::get_permissions            -> PT <type:rw,..> | E nf
 //   auth_parse <line>                      AuthManager::parse_auth                 -> P <u> <s> <c> | N
 //   auth_verify <msg> <uid> <sig>          AuthManager::verify_signature           -> OK | N
@@ -437,6 +438,14 @@ pub fn run(t: &[String]) -> String {
             let a = am();
             let (r, w, ad) = gl.rt.block_on(async { (a.can_read(&u, &e).await, a.can_write(&u, &e).await, a.is_admin(&u).await) });
             format!("r={} w={} a={}", r as u8, w as u8, ad as u8)
+        }
+        "auth_active" => {
+            // the account's `active` flag as AuthManager::list_users reports it
+            let uid = text(&t[1]);
+            match gl.rt.block_on(am().list_users()).iter().find(|u| u.user_id == uid) {
+                Some(u) => format!("A {}", u.active as u8),
+                None => "A -".into(),
+            }
         }
         "auth_perms" => match gl.rt.block_on(am().get_permissions(&text(&t[1]))) {
             Ok(m) => {
